@@ -63,23 +63,51 @@ def run(ck: Check, repo: Repo) -> None:
         return f
 
     loops = [n for n in cfg.live_nodes() if n.kind == "for" and mentions(tb, tb.term(n.ast.iter, n), derives_from_window)]
+    if not loops:
+        raise AnalysisError("_get_n_step_info: no loop over the window found")
+
+    def reward_read(L: Node) -> Optional[Node]:
+        ids = _body_ids(cfg, L)
+        for n in sorted((cfg.nodes[i] for i in ids), key=lambda x: x.lineno):
+            for x in n.walk():
+                if isinstance(x, ast.Subscript) and isinstance(x.ctx, ast.Load):
+                    a = single_atom(tb, tb.term(x, n))
+                    if a is not None and field_of(is_elem, reward_key)(a):
+                        return n
+        return None
+
+    # ---- every scan of the window ends at the first terminal element, existentially over parallel environments
+    n_done_tests = 0
+    for L in loops:
+        ids = _body_ids(cfg, L)
+        for n in (cfg.nodes[i] for i in ids):
+            if n.kind == "test" and n.true_succ is not None and isinstance(n.stmt, ast.If):
+                t = tb.term(n.ast, n)
+                if not (mentions(tb, t, field_of(is_elem, done_key)) or mentions(tb, t, lambda a: a.kind == "rec" and a.name.startswith("done"))):
+                    continue
+                n_done_tests += 1
+                isf = lambda e_, n_=n: not isinstance(e_, (ast.BoolOp, ast.UnaryOp)) and (  # noqa: E731
+                    mentions(tb, tb.term(e_, n_), field_of(is_elem, done_key)) or mentions(tb, tb.term(e_, n_), lambda a: a.kind == "rec" and a.name.startswith("done")))
+                reg_t = cfg._region([n.true_succ], n)
+                reg_f = cfg._region([s for s in n.succ if s is not n.true_succ and s.id not in n.exc_succ], n)
+                exits = (L.id not in reg_t and flag_implies(n.ast, True, isf)) or (L.id not in reg_f and flag_implies(n.ast, False, isf))
+                ck.ob("C10.1", info, n.ast, exits,
+                      "a terminal window element ends the scan of the window (break / return on done)",
+                      detail="after an element with done=1 the loop goes on to later elements, which belong to the next episode")
+                reds = {last_attr(c) for c in ast.walk(n.ast) if isinstance(c, ast.Call)} | {call_name(c) for c in ast.walk(n.ast) if isinstance(c, ast.Call)}
+                bad = reds & {"all", "torch.all", "np.all", "min", "prod"}
+                ck.ob("C10.1", info, n.ast, not bad and bool(reds & {"any", "torch.any", "np.any", "max", "sum", "item"}),
+                      "with parallel environments the window is cut as soon as ANY environment's episode ends (existential reduction of the done flags)",
+                      detail=f"reduction used: {sorted(reds)}; `all` keeps summing for the environments that already ended, mixing in their next episode")
+    reward_loops = [(L, reward_read(L)) for L in loops]
+    reward_loops = [(L, r) for L, r in reward_loops if r is not None]
+    if len(reward_loops) != 1:
+        raise AnalysisError(f"_get_n_step_info: expected exactly one loop that sums the rewards of the window, found {len(reward_loops)} "
+                            f"(of {len(loops)} loops over the window) — shape not recognised")
+    loop, R = reward_loops[0]
     if len(loops) != 1:
-        raise AnalysisError(f"_get_n_step_info: expected one loop over the window, found {len(loops)}")
-    loop = loops[0]
+        raise AnalysisError(f"_get_n_step_info: {len(loops)} loops over the window — multi-pass shape not recognised by C10.2-C10.4")
     body_ids = _body_ids(cfg, loop)
-    # reward consumption: first body node that reads elem[reward_key]
-    R: Optional[Node] = None
-    for n in sorted((cfg.nodes[i] for i in body_ids), key=lambda x: x.lineno):
-        for x in n.walk():
-            if isinstance(x, ast.Subscript) and isinstance(x.ctx, ast.Load):
-                if mentions(tb, tb.term(x, n), field_of(is_elem, reward_key)) and single_atom(tb, tb.term(x, n)) is not None \
-                        and field_of(is_elem, reward_key)(single_atom(tb, tb.term(x, n))):
-                    R = n
-                    break
-        if R is not None:
-            break
-    if R is None:
-        raise AnalysisError("_get_n_step_info: read of the element's reward not found in the window loop")
 
     # ---------------- C10.1 (first element)
     done0 = field_of(is_e0, done_key)
@@ -90,19 +118,17 @@ def run(ck: Check, repo: Repo) -> None:
     for kind, node, cond, extra in guards:
         if not cfg.dominates(node, R) or node is R:
             continue
-        pos = _positive(cond)
+        isf0 = lambda e_, n_=node: not isinstance(e_, (ast.BoolOp, ast.UnaryOp)) and mentions(tb, tb.term(e_, n_), done0)  # noqa: E731
         if kind == "test":
             reg_true = cfg._region([node.true_succ], node) if node.true_succ else set()
             others = [s for s in node.succ if s is not node.true_succ and s.id not in node.exc_succ]
             reg_false = cfg._region(others, node)
-            bad_region = reg_true if pos else reg_false
-            if R.id not in bad_region:
+            if (R.id not in reg_true and flag_implies(cond, True, isf0)) or (R.id not in reg_false and flag_implies(cond, False, isf0)):
                 ok0 = True
                 why0 = f"`{short(cond, 80)}` at line {node.lineno} keeps the loop body out of the terminal case"
         elif kind == "ifexp":
-            empty = extra.body if pos else extra.orelse
             feeds_loop = _feeds(cfg, node, loop)
-            if _is_empty_seq(empty) and feeds_loop:
+            if feeds_loop and ((_is_empty_seq(extra.body) and flag_implies(cond, True, isf0)) or (_is_empty_seq(extra.orelse) and flag_implies(cond, False, isf0))):
                 ok0 = True
                 why0 = f"the iterable is empty when `{short(cond, 80)}` (line {node.lineno})"
     ck.ob("C10.1", info, loop.ast.iter if hasattr(loop.ast, "iter") else info.node, ok0,
@@ -116,9 +142,11 @@ def run(ck: Check, repo: Repo) -> None:
         if n.kind == "test" and n.true_succ is not None:
             t = tb.term(n.ast, n)
             if mentions(tb, t, donek) or mentions(tb, t, lambda a: a.kind == "rec" and a.name.startswith("done")):
-                pos = _positive(n.ast)
-                reg = cfg._region([n.true_succ], n) if pos else cfg._region([s for s in n.succ if s is not n.true_succ], n)
-                if loop.id not in reg:
+                isf = lambda e_, n_=n: not isinstance(e_, (ast.BoolOp, ast.UnaryOp)) and (  # noqa: E731
+                    mentions(tb, tb.term(e_, n_), donek) or mentions(tb, tb.term(e_, n_), lambda a: a.kind == "rec" and a.name.startswith("done")))
+                reg_t = cfg._region([n.true_succ], n)
+                reg_f = cfg._region([s for s in n.succ if s is not n.true_succ and s.id not in n.exc_succ], n)
+                if (loop.id not in reg_t and flag_implies(n.ast, True, isf)) or (loop.id not in reg_f and flag_implies(n.ast, False, isf)):
                     S.add(n.id)
     path = cfg.path_avoiding(R, {R.id}, S)
     ck.ob("C10.1", info, R.ast, bool(S) and path is None,
@@ -221,6 +249,26 @@ def _body_ids(cfg: CFG, loop: Node) -> Set[int]:
                 ids.add(n.id)
                 break
     return ids
+
+
+def flag_implies(cond: ast.AST, want: bool, is_flag) -> bool:
+    """Does flag = 1 force `cond` to evaluate to `want`?  (structural: not / and / or / leaf mentioning the flag)"""
+    if isinstance(cond, ast.UnaryOp) and isinstance(cond.op, ast.Not):
+        return flag_implies(cond.operand, not want, is_flag)
+    if isinstance(cond, ast.BoolOp):
+        rs = [flag_implies(v, want, is_flag) for v in cond.values]
+        if isinstance(cond.op, ast.And):
+            return all(rs) if want else any(rs)
+        return any(rs) if want else all(rs)
+    if isinstance(cond, ast.Compare) and len(cond.ops) == 1 and isinstance(cond.ops[0], (ast.Eq, ast.Is)) \
+            and const_value(cond.comparators[0]) in (0, False) and is_flag(cond.left):
+        return not want
+    if isinstance(cond, ast.Compare) and len(cond.ops) == 1 and isinstance(cond.ops[0], (ast.Gt, ast.NotEq)) \
+            and const_value(cond.comparators[0]) in (0, False) and is_flag(cond.left):
+        return want
+    if is_flag(cond):
+        return want
+    return False
 
 
 def _positive(cond: ast.AST) -> bool:
@@ -397,4 +445,11 @@ VARIANTS = [
     ("store-before-full", _RBF, "if len(self.n_step_buffer) < self.n_step:", "if len(self.n_step_buffer) < self.n_step - 1:", "fire", "C10.5"),
     ("train-adds-raw", _TOP, "                    if one_step_transition is not None:\n                        memory.add(one_step_transition)", "                    if one_step_transition is not None:\n                        memory.add(transition)", "fire", "C10.5"),
     ("train-adds-always", _TOP, "                    if one_step_transition is not None:\n                        memory.add(one_step_transition)", "                    memory.add(transition)", "fire", "C10.5"),
+]
+VARIANTS += [
+    ("any-to-all", _RBF, "            if done.bool().any():  # Stop if episode terminated", "            if done.bool().all():", "fire", "C10.1"),
+    ("first-check-only-when-uninitialised", _RBF, "        if first_transition[self.done_key].bool().any():\n            return first_transition\n",
+     "        if not self.initialized and first_transition[self.done_key].bool().any():\n            return first_transition\n", "fire", "C10.1"),
+    ("first-check-or-ok", _RBF, "        if first_transition[self.done_key].bool().any():\n            return first_transition\n",
+     "        if self.n_step == 1 or first_transition[self.done_key].bool().any():\n            return first_transition\n", "silent", None),
 ]
